@@ -1,5 +1,7 @@
 package types
 
+import "bytes"
+
 // C06 — wire data types decode their own encoding back to equal fields and report exactly the
 // number of bytes that encoding occupies, also when followed by unrelated trailing bytes.
 
@@ -215,7 +217,13 @@ func H_C06_SMB_STRING_boundary() {
 	format := UCHAR(vParam("format"))
 	n := vParam("len")
 	payload := make([]byte, n)
+	if format == SMB_STRING_BUFFER_FORMAT_NULL_TERMINATED_OEM_STRING || format == SMB_STRING_BUFFER_FORMAT_NULL_TERMINATED_ASCII_STRING {
+		payload = bytes.Repeat([]byte{'x'}, n) // NUL-terminated formats: no NUL inside
+	}
 	payload[0], payload[n-1] = vU8("first"), vU8("last")
+	if format == SMB_STRING_BUFFER_FORMAT_NULL_TERMINATED_OEM_STRING || format == SMB_STRING_BUFFER_FORMAT_NULL_TERMINATED_ASCII_STRING {
+		vAssume(payload[0] != 0 && payload[n-1] != 0)
+	}
 	s := NewSMB_STRING(payload)
 	s.SetBufferFormat(format)
 	enc, err := s.Marshal()
